@@ -13,6 +13,7 @@
 import LdkModel.Proofs.Package
 import LdkModel.Proofs.OnchainClaims
 import LdkModel.Proofs.ClaimTime
+import LdkModel.Proofs.Packages
 namespace Ldk.C07
 open Ldk Ldk.Pkg Ldk.Onchain
 
@@ -830,5 +831,40 @@ example : goesOnchainAt 500 false true 400 200 = some 464 ∧
     (by rw [← issues_heights 500 _ (fun _ => 1000) 470 31]; exact List.mem_map.2 ⟨hr, hmem, rfl⟩)).1
   have h18 : MAX_BLOCKS_FOR_CONF = 18 := rfl
   omega
+
+/-! ## the package layer of OnchainTxHandler (Model/Packages.lean, shared with C06; decisions translated: Generated/Packages.lean) -/
+
+section Packages
+open Ldk.Packages Ldk.PkgLayer
+variable {α : Type} [DecidableEq α]
+
+/-- **rebroadcast_spends_only_unspent_outpoints** — "only with transactions that are consensus-valid when broadcast", the double-spend half:
+    for EVERY handler state that passes the consistency check `wfB` (evaluated on every real handler state by the c07close / c06justice
+    differential) and EVERY accepted block — any number of transactions, each spending any outpoints of any pending aggregated claim, in any
+    order, e.g. the counterparty's two single-input HTLC-success transactions spending two different outpoints of ONE aggregated timeout
+    claim — every claim transaction (re)broadcast while the block is processed (the replacement for a request the block split, every timer
+    bump) spends only outpoints that are still unspent after that block.  Rests on the TRANSLATED queueing rule: `bump_candidates.insert`
+    overwrites (`bumpInsertOverwrites`), so the bump candidate is the request AFTER ALL splits of the block; and a pending request that still
+    contains an outpoint spent in the block is entirely spent by it and has its `Claim` entry (generate_claim's guard, pinned, stops it). -/
+theorem rebroadcast_spends_only_unspent_outpoints (height : Nat) (feeOk : Nat → Bool) (h0 : Handler α) (txs : List (Tx α))
+    (hwf : h0.wfB = true) (r : BlockResult α) (hr : connectBlock height feeOk h0 txs = some r) :
+    (∀ i ∈ r.issued, ∀ o ∈ i.spends, o ∉ blockSpent txs) ∧
+    (∀ e ∈ r.handler.pending, ∀ o ∈ e.2.outpoints, o ∈ blockSpent txs →
+      hasClaimAt r.handler.events e.1 height ∧ ∀ o' ∈ e.2.outpoints, o' ∈ blockSpent txs) :=
+  ⟨connectBlock_reissue_spends_unspent height feeOk h0 txs (wfB_sound h0 hwf) r hr,
+   connectBlock_no_spent_outpoint_left height feeOk h0 txs (wfB_sound h0 hwf) r hr⟩
+
+/-- three outbound HTLCs with the same expiry on the counterparty's commitment, aggregated in ONE timeout claim (claim id 9) -/
+def exClaim : Handler Nat :=
+  { pending := [(9, { inputs := [(1, { kind := .counterpartyReceivedHTLCOutput 140 }), (2, { kind := .counterpartyReceivedHTLCOutput 140 }), (3, { kind := .counterpartyReceivedHTLCOutput 140 })],
+                      mall := .malleable .pinnable, spendable := 140, feerate := 253, timer := 155 })],
+    claimable := [(1, 9, 120), (2, 9, 120), (3, 9, 120)], events := [], locked := [] }
+
+-- non-vacuity: the counterparty's two HTLC-success transactions confirm in ONE block; the single replacement claim spends only the third output
+example : exClaim.wfB = true ∧
+    (connectBlock 141 (fun _ => true) exClaim [⟨21, [1]⟩, ⟨22, [2]⟩]).map (fun r =>
+      (r.issued.map (fun i => (i.id, i.spends)), r.handler.pending.map (fun e => (e.1, e.2.outpoints)))) = some ([(9, [3])], [(9, [3])]) := by decide
+
+end Packages
 
 end Ldk.C07
